@@ -113,6 +113,13 @@ CHECKS["C16"] = dict(
     design_ref="3/C16",
 )
 
+CHECKS["C17"] = dict(
+    technique="mutational-structural Hypothesis fuzzing of the URL decoders with the semantic oracle inside the target; thorough tier adds an atheris (libFuzzer) coverage-guided campaign on the same entry function",
+    text="Inputs: valid URLs from the C16 generators (9 codecs) or synthetic URLs (codec-specific token bodies with dimensions 0..4, large boards with constant bodies, dimensions 0/1/huge/non-ASCII digits/empty, other hosts, missing segments) followed by 0..6 edits; arbitrary Unicode text; deserialize_problem_as_url with generated allowed_puzzles/allow_failure/return_size; get_puzzle_info_from_url; deserialize_problem(term, text, h, w) for generated combinator terms with mutated texts and odd sizes. Outcome must be None, ValueError or a problem of the dimensions stated in the URL that serializes and whose canonical text decodes to an equal problem; anything else is bucketed by (exception type, innermost cspuz frame) so that one root cause does not hide the next. Thorough: 16 atheris workers x 60 s (FuzzedDataProvider decoding into entry kind/codec/dimensions/body; empty and seeded corpora). Exploration.",
+    note="Trusted base: the oracle in checks/c17.py; workers run under a 2 GiB address-space cap so that unbounded allocation on a short input surfaces as MemoryError. compass.parse_puzz_link_url is outside the property. 12/12 sensitivity mutants caught; seven root causes found and fixed (see known_findings.json); the atheris target rediscovers them on the original snapshot within 40 s.",
+    design_ref="3/C17",
+)
+
 NOT_BUILT_REASON = "check not built yet in this session (planned in DESIGN.md section 3); not claimed until it runs quietly and is mutation-tested"
 
 def main():
